@@ -22,6 +22,58 @@ COMPONENT = {
     "nested": ("not(below(add(#1, 1), 3))", "x"),
     "rhs": ("yes() -> @v = add(#1, 1)", "x"),
 }
+# more concrete shapes per abstract error kind: (component, offending cell). The good cell is "2". A shape is used only if a
+# probe at the start of the check shows that it behaves as its kind says on the current tree (good cell: the line matches and
+# nothing is raised or collected; offending cell: exactly one error for the component under 'collect', an exception under 'raise').
+CANDIDATES = {
+    "argtop": [("add(#1, 1)", "x"), ("subtract(#1, 1)", "x"), ("multiply(#1, 2)", "x"), ("sum.s(#1)", "x"), ("mod(#1, 3)", "x"),
+               ("int(#1)", "x"), ("add(1, #1, 1)", "q")],
+    "argval": [("@v = add(#1, 1)", "x"), ("@v = subtract(5, #1)", "x"), ("@v = multiply(#1, #1)", "x"), ("@v = int(#1)", "zz"),
+               ("@v = mod(#1, 2)", "x"), ("@v.k = add(#1, 1)", "x"), ("@v = subtotal.st(#0, #1)", "x")],
+    "rule": [('@v = substring("abcdef", int(#1))', "-1"), ('@v = substring("abcdef", #1)', "-3")],
+    "pyexc": [("@v = mod(5, #1)", "0"), ("@v = mod(add(3, 4), #1)", "0")],
+    "nested": [("not(below(add(#1, 1), 3))", "x"), ("not(empty(subtract(#1, 1)))", "x"), ("or(no(), above(add(#1, 1), 0))", "x")],
+    "rhs": [("yes() -> @v = add(#1, 1)", "x"), ('yes() -> push("s", add(#1, 1))', "x"), ("exists(#0) -> @v = mod(5, #1)", "0"),
+            ("yes() -> @v = int(#1)", "x")],
+}
+SHAPES = {k: [v] for k, v in COMPONENT.items()}     # filled by probe_shapes()
+
+
+def _probe(args):
+    kind, comp, badcell = args
+    d = scratch.scratch_dir() or scratch.enter_scratch()
+    path = os.path.join(d, "probe.csv")
+    res = {}
+    for label, cell, policy in (("good", "2", "collect"), ("bad_collect", badcell, "collect"), ("bad_raise", badcell, "raise")):
+        runner.write_csv(path, [["r0", "2"], ["r1", cell]])
+        scratch.set_policy(policy)
+        events = []
+        out = runner.run_standalone(f"${path}[*][ {comp} ]", method="collect", events=events)
+        p = out["csvpath"]
+        res[label] = {"raised": out["raised"] is not None, "returned": [e["k"] for e in events if e["ret"]],
+                      "errors": sorted(e.line_count for e in (p.errors or []))}
+    ok = (not res["good"]["raised"] and res["good"]["returned"] == [0, 1] and res["good"]["errors"] == []
+          and not res["bad_collect"]["raised"] and res["bad_collect"]["returned"] == [0]
+          and (res["bad_collect"]["errors"] == [1] or (kind == "nested" and res["bad_collect"]["errors"] and set(res["bad_collect"]["errors"]) == {1}))
+          and res["bad_raise"]["raised"])
+    return kind, comp, badcell, ok
+
+
+def probe_shapes(rep):
+    items = [(k, c, b) for k, lst in CANDIDATES.items() for (c, b) in lst]
+    outs = common.pmap(_probe, items, initializer=scratch.enter_scratch, chunksize=1)
+    used, rejected = {}, []
+    for kind, comp, badcell, ok in outs:
+        if ok:
+            used.setdefault(kind, []).append((comp, badcell))
+        else:
+            rejected.append(comp)
+    for k in COMPONENT:
+        if COMPONENT[k] not in used.get(k, []):
+            used.setdefault(k, []).insert(0, COMPONENT[k])
+    SHAPES.update(used)
+    rep.extra["error_shapes_used"] = {k: [c for c, _ in v] for k, v in used.items()}
+    rep.extra["error_shapes_not_behaving_as_their_kind"] = rejected
 
 
 def _cfg(nlines, overrides):
@@ -42,7 +94,8 @@ def _replay(rec):
     d = scratch.scratch_dir() or scratch.enter_scratch()
     policy = [f for f in ORDER if f in rec["policy"]]
     vm = rec["vm"] if isinstance(rec["vm"], dict) else {}
-    comp, badcell = COMPONENT[rec["kind"]]
+    shapes = rec.get("_shapes") or [COMPONENT[rec["kind"]]]
+    comp, badcell = shapes[rec.get("_idx", 0) % len(shapes)]
     n = rec["nlines"]
     rows = [["r%d" % i, badcell if i in rec["bad"] else "2"] for i in range(n)]
     path = os.path.join(d, "f.csv")
@@ -118,8 +171,11 @@ def main(tier):
     recs = res.records
     if not recs:
         raise MachineryError("MC_ErrorPolicy emitted nothing")
-    for r in recs:
+    probe_shapes(rep)
+    for i, r in enumerate(recs):
         r["nlines"] = nlines
+        r["_shapes"] = SHAPES[r["kind"]]
+        r["_idx"] = i * 7 + common.seed()
     bad = common.pmap(_replay, recs, initializer=scratch.enter_scratch)
     rep.traces = len(recs)
     rep.evaluations = len(recs)
